@@ -56,6 +56,11 @@ func selectCaseOnEdge(b *ssa.BasicBlock, succ int) (*ssa.Select, int, bool) {
 func tokenSpec(assumeOpenTr bool) *TSpec {
 	return &TSpec{
 		Name: "writelock",
+		// function literals (deferred epilogues, callbacks) are analysed in the context of their
+		// parent through bottom-up summaries; named functions only through the contract table
+		UseSummaries: true,
+		InlineDefers: true,
+		InScope:      func(fn *ssa.Function) bool { return fn.Parent() != nil },
 		Instr: func(in ssa.Instruction) ([]Eff, bool) {
 			switch x := in.(type) {
 			case *ssa.Send:
@@ -303,6 +308,11 @@ func ruleTokenContracts(p *Prog, r *Report, rule string, floor int) {
 			continue
 		}
 		name := fnName(fn)
+		if fn.Parent() != nil {
+			if _, ok := tokenContracts[fnName(fn.Parent())]; ok {
+				continue // summarised into its parent
+			}
+		}
 		r.Fn(name)
 		r.Site(1)
 		c, ok := tokenContracts[name]
